@@ -227,6 +227,15 @@ def make_persona(year, seed, archetype=None):
         over['1099-r:0.box_7_ira_sep_simple'] = 'yes'
         over['1099-r:0.belongs_to'] = 'taxpayer'
         over['1040.ira_exception2_you'] = rng.pick(['yes', 'yes', 'no'])
+        if rng.chance(0.35):
+            # a second, spouse-owned IRA distribution on a joint return
+            status = 'MarriedFilingJointly'
+            over['1040.number_1099-r'] = '2'
+            over['1099-r:1.box_1'] = str(rng.pick([3000, 4500]))
+            over['1099-r:1.box_2a'] = '0'
+            over['1099-r:1.box_7_ira_sep_simple'] = 'yes'
+            over['1099-r:1.belongs_to'] = 'spouse'
+            over['1099-r:1.payer'] = 'Spouse IRA custodian'
         if rng.chance(0.6):
             # Form 8606 part I with a basis ratio that does not terminate within 5 decimals
             over['8606:you.part_1_needed'] = 'yes'
@@ -251,11 +260,15 @@ def make_persona(year, seed, archetype=None):
         over['1040.number_1098'] = '1'
         over['1098:0.box_1'] = str(rng.pick([4000, 9000.5]))
     elif arch == 'retiree_1099r':
-        over['1040.number_1099-r'] = '1'
-        over['1099-r:0.box_1'] = '24000'
-        over['1099-r:0.box_2a'] = '24000'
-        over['1099-r:0.box_7_ira_sep_simple'] = 'no'
-        over['1099-r:0.box_4'] = '2400'
+        nr = rng.pick([1, 2, 2, 3])
+        over['1040.number_1099-r'] = str(nr)
+        for k in range(nr):
+            amt = rng.pick([24000, 18000, 6400.5])
+            over[f'1099-r:{k}.box_1'] = str(amt)
+            over[f'1099-r:{k}.box_2a'] = str(amt if rng.chance(0.7) else amt - 500)
+            over[f'1099-r:{k}.box_7_ira_sep_simple'] = 'no'
+            over[f'1099-r:{k}.box_4'] = str(round(amt * 0.1, 2))
+            over[f'1099-r:{k}.payer'] = f'Pension {k}'
         wages = rng.pick([60000, 70000])
 
     if year == 2021 and 50000 <= wages < 100000:
